@@ -295,10 +295,36 @@ func LenientFeatures(text string) []string {
 	return out
 }
 
+// hugeNumber: some block size, position or size field is beyond 2^50.
+func hugeNumber(text string) bool {
+	for _, line := range strings.Split(text, "\n") {
+		for _, tok := range strings.Split(line, " ") {
+			var nums []string
+			if parts := strings.SplitN(tok, ":", 3); len(parts) == 3 {
+				nums = parts[:2]
+			} else if parts := strings.Split(tok, "+"); len(parts) >= 2 {
+				nums = parts[1:2]
+			}
+			for _, n := range nums {
+				if digitsRe.MatchString(n) {
+					if v, _ := parseNum(n); v > maxNum {
+						return true
+					}
+				}
+			}
+		}
+	}
+	return false
+}
+
 // InvalidClass names the class of an arbitrary input for use in a signature.
 func InvalidClass(text string) string {
 	p, rej := Interpret(text)
 	switch {
+	case rej != nil && hugeNumber(text):
+		// whatever else is wrong with the text, a number beyond 2^50 is
+		// the feature to name (integer overflow is its own root cause)
+		return "invalid-number-out-of-range"
 	case rej != nil:
 		return "invalid-" + rej.Class
 	case p.Conflict != "":
